@@ -1,11 +1,11 @@
-\* negative control: remove_connection that forgets the byte counters must violate TotalsMonotone
+\* part S (quick tier): max_ip_age 0 - every point is too old one tick later unless refreshed or in use; small enough for a complete cover
 SPECIFICATION SpecS
 CONSTANTS
-  T0 = 10  MaxTime = 12
-  Peers = {1}  Seeders = {1, 2}  Circuits = {1, 2}
-  MaxIpAge = 2  MinDht = 3  MaxDht = 1  Interval = 1  ConnLimit = 2  MaxBytes = 1  MaxResult = 1
+  T0 = 10  MaxTime = 11
+  Peers = {1, 2}  Seeders = {1}  Circuits = {1}
+  MaxIpAge = 0  MinDht = 3  MaxDht = 1  Interval = 1  ConnLimit = 2  MaxBytes = 0  MaxResult = 1
   SeedingChoices = {FALSE}
-  DupAdd = FALSE  ExpireUsed = FALSE  NoGate = FALSE  ForgetHistory = TRUE
+  DupAdd = FALSE  ExpireUsed = FALSE  NoGate = FALSE  ForgetHistory = FALSE
   Nodes = {1}  NSwarmA = 1  PSeeders = {1}  PexAge = 3  PexCap = 2  SendCap = 10
   Unload = FALSE  ExpireNewest = FALSE  CrossSwarm = FALSE  MaxMsgs = 0  MaxAnn = 2
 INVARIANT TypeOK
